@@ -205,6 +205,81 @@ def effects_obligation(prop):
                               "arguments owned by the caller are not modified (E16)", run, floor=1)
 
 
+WRAPPERS = {
+    "C01": ["cryomotl.Motl.load", "cryomotl.Motl.write_out"],
+    "C03": ["cryomotl.emmotl2relion", "cryomotl.relion2emmotl", "cryomotl.stopgap2relion", "cryomotl.relion2stopgap"],
+    "C04": ["cryomotl.stopgap2emmotl", "cryomotl.emmotl2stopgap", "cryomotl.relion2stopgap", "cryomotl.stopgap2relion"],
+    "C11": ["cryomap.em2mrc", "cryomap.mrc2em", "cryomap.invert_contrast"],
+    "C12": ["cryomap.lowpass", "cryomap.highpass", "cryomap.bandpass"],
+    "C13": ["cryomask.generate_mask"],
+    "C14": ["cryomap.place_object", "cryomap.symmetrize_volume", "cryomap.extract_subvolume", "cryomap.rotate"],
+    "C15": ["tiltstack.crop", "tiltstack.sort_tilts_by_angle", "tiltstack.remove_tilts", "tiltstack.bin", "tiltstack.flip_along_axes",
+            "tiltstack.split_stack_even_odd", "tiltstack.merge"],
+    "C16": ["tiltstack.dose_filter", "tiltstack.dose_filter_single_image"],
+    "C17": ["mdoc.remove_images", "mdoc.sort_mdoc_by_tilt_angles", "wedgeutils.create_wedge_list_sg_batch", "wedgeutils.create_wedge_list_em_batch"],
+    "C18": ["nnana.get_nn_stats", "nnana.get_nn_distances", "nnana.get_nn_rotations", "nnana.get_feature_nn_indices"],
+    "C19": ["ribana.trace_chains"],
+    "C20": ["memthick.measure_thickness_cpu", "memthick.measure_membrane_thickness"],
+}
+
+
+def plumbing_obligation(prop):
+    """cross-cutting obligation E20 (sa/plumbing.py): options are handed on to the parameter of their own name, are not silently dropped,
+    and keep their default values, over the call closure of the property's functions"""
+    from sa import plumbing
+    from sa.report import Obligation
+    from .effects_entries import ENTRIES
+    from . import plumbing_baseline as PB
+    from .defaults_baseline import DEFAULTS
+
+    def run(ctx):
+        roots = [q for q in ENTRIES[prop] + WRAPPERS.get(prop, []) if ctx.prog.has(q)]
+        missing = [q for q in WRAPPERS.get(prop, []) if not ctx.prog.has(q)]
+        if missing:
+            raise AnchorMissing(f"public function(s) of the property not found: {missing[:3]}")
+        cg = ctx.prog.callgraph()
+        scope, todo = set(), list(roots)
+        while todo:
+            q = todo.pop()
+            if q in scope:
+                continue
+            scope.add(q)
+            todo.extend(cg.get(q, ()))
+        scope = sorted(scope)
+        crossed, dropped, sites = plumbing.analyse(ctx.prog, scope)
+        base_c, base_d = set(PB.CROSSED), set(PB.DROPPED)
+        for c in crossed:
+            if (c["caller"], c["callee"], c["param"], c["passed"]) in base_c:
+                continue
+            ctx.finding(c["caller"], c["node"], f"{c['caller'].split('.')[-1]} hands its option `{c['passed']}` to the parameter `{c['param']}` of "
+                        f"{c['callee']}, although a parameter called `{c['passed'] if c['passed'] != c['param'] else c['param']}` exists on the other side: "
+                        "the two options are crossed (the fixtures use equal or default values for both, so no test notices)", c["node"], c["module"])
+        for d in dropped:
+            if (d["caller"], d["callee"], d["param"]) in base_d:
+                continue
+            ctx.finding(d["caller"], d["node"], f"{d['caller'].split('.')[-1]} has an option `{d['param']}` and calls {d['callee']}, which has an option "
+                        f"of the same name, without passing it: the caller's value silently has no effect there (the callee's default is used)",
+                        d["node"], d["module"])
+        ndef = 0
+        for q in scope:
+            want = DEFAULTS.get(q)
+            if not want:
+                continue
+            m, fn = ctx.prog.func(q)
+            have = plumbing.defaults_of(fn)
+            for p_, v_ in want.items():
+                ndef += 1
+                if p_ in have and have[p_] is not None and have[p_] != v_:
+                    ctx.finding(q, f"default of {p_}", f"the default of `{p_}` in {q} changed from {v_} to {have[p_]}: every call that does not pass "
+                                "it (the property's default options, and the callers inside the package that rely on it) now behaves differently",
+                                fn, m)
+        ctx.count(sites + ndef, {"functions in the call closure": len(scope), "resolved call sites examined": sites,
+                                 "literal defaults compared": ndef, "crossed (baseline)": len(base_c), "dropped (baseline)": len(base_d)})
+
+    return Obligation("OX.P", "option plumbing: options reach the parameter of their own name, are not dropped on the way, and keep their "
+                              "default values (E20, over the call closure of the property's functions)", run, floor=5)
+
+
 def labels_obligation(prop, floor=0):
     """cross-cutting obligation E17: pandas combines labelled operands by row label, not by row position"""
     from sa import interp as _interp
